@@ -165,7 +165,7 @@ def _structural_decorators(repo):
                      and isinstance(c.func.value, ast.Name) and c.func.value.id == 'self' and c.func.attr in decorated]
             inside = {id(a) for c in calls for a in c.args if isinstance(a, ast.Name)}
             ok = ok and all(id(u) in inside for u in uses)
-        out.append({'id': 'decorated:' + n, 'kind': 'call-pre', 'ok': ok,
+        out.append({'id': 'decorated:' + n, 'definite': True, 'kind': 'call-pre', 'ok': ok,
                     'label': '(b) Script.%s validates its position: decorated with validate_line_column or passing '
                              'line/column only to a decorated query' % n})
     expected = {'complete', 'infer', 'goto', 'help', 'get_references', 'get_signatures', 'get_context'}
